@@ -66,9 +66,10 @@ class StmtMixin:
 
     def st_Return(self, s, st):
         exc = []
+        site = self.return_ordinals.get(id(s))
         if s.value is None:
-            return [Outcome("return", st, NONE)]
-        outs = [Outcome("return", s2, v) for s2, v in self.ev(s.value, st, exc)]
+            return [Outcome("return", st, NONE, site)]
+        outs = [Outcome("return", s2, v, site) for s2, v in self.ev(s.value, st, exc)]
         return outs + exc
 
     def st_Break(self, s, st):
